@@ -2,7 +2,7 @@ SPECIFICATION Spec
 CONSTANTS
   Variants = {"best"}
   Relays = {1, 2, 3}
-  ProvSet <- MCProvNone3
+  FetchSet = {}
   Values = {0, 1, 2, 3}
   CfgSet <- MCCfgSmall
   TableSet = {"A"}
